@@ -246,6 +246,12 @@ fn hot_reloading_thread(
         loop {
             match cache_msg.try_recv() {
                 Ok(CacheMessage::Ptr(ptr, reloader, token)) => {
+                    // Events that were sent before this request must be taken
+                    // into account by this update, so handle them first.
+                    while let Ok(msg) = events.try_recv() {
+                        cache.handle_events(msg);
+                    }
+
                     // Safety: The received pointer is guaranteed to
                     // be valid until we reply back
                     #[cfg(assets_manager_verif)]
